@@ -33,6 +33,12 @@
  *    This is what checks that growth across several doublings keeps everything;
  *  - after a sync epoch the identifiers reserved next by the ranks must all be equal ("sync-mismatch"); that they
  *    are new on each rank is the duplicate-id check.
+ *
+ * Identifier 0: reserve_id never hands it out, and parsec_taskpool_lookup(0) reads taskpool_array[0], which no code
+ * ever initialises (garbage after the first reservation, a NULL-array dereference before it) although runtime.h
+ * promises NULL for an identifier without taskpool.  No PaRSEC component sends identifier 0, so the default workload
+ * stays away from it (the property speaks of identifiers of taskpools); `--knob id0=1` (C37_KNOBS="id0=1" ./check C37)
+ * includes it in the lookups and the final sweep and reports the behaviour as garbage-lookup / crash.
  */
 #include "../hx.h"
 #include "../../oracle/lin.h"
@@ -88,6 +94,7 @@ typedef struct {
     int nhist, overflow, out_of_range;
     int lo, hi;                     /* op index range of the current epoch */
     int sync_a, sync_b, in_sync[MAXR];
+    int hot[MAXR][8], nhot[MAXR];   /* taskpools most recently reserved / registered / unregistered on the rank */
     long sync_nid[MAXR];
 } ctx_t;
 static ctx_t C;
@@ -100,6 +107,8 @@ static hrec_t *rec(ctx_t *c, int rank, int id, int kind, int thr, long val)
     *h = (hrec_t){rank, id, kind, thr, val, 0, 0};
     return h;
 }
+
+static void touch(ctx_t *c, int k, int i) { c->hot[k][c->nhot[k]++ % 8] = i; }
 
 /* one reservation by thread g on rank k; returns the taskpool index or -1 */
 static int do_reserve(ctx_t *c, int g, int k)
@@ -120,6 +129,7 @@ static int do_reserve(ctx_t *c, int g, int k)
     c->tps[k][i] = (tprec_t){tp, (int)id, g, 0, 0};
     c->id2tp[k][id] = (short)(i + 1);
     if (id > c->maxid[k]) c->maxid[k] = (int)id;
+    touch(c, k, i);
     if (id > 8) sim_probe(PR_GROW3);
     if (id > 64) sim_probe(PR_GROW6);
     return i;
@@ -148,7 +158,9 @@ static void do_lookup(ctx_t *c, int g, int k, int id)
 static int pick_lookup_id(ctx_t *c, int k, long a, long b)
 {
     int id;
-    if (b % 3 && c->ntp[k]) id = c->tps[k][a % c->ntp[k]].id;            /* an identifier somebody holds */
+    int nh = c->nhot[k] < 8 ? c->nhot[k] : 8;
+    if (b % 4 >= 2 && nh) id = c->tps[k][c->hot[k][a % nh]].id;           /* an identifier in flux right now */
+    else if (b % 4 == 1 && c->ntp[k]) id = c->tps[k][a % c->ntp[k]].id;   /* an identifier somebody holds */
     else id = (int)(a % (c->maxid[k] + 4));                               /* anything, also never handed out / beyond the array */
     if (id == 0 && !c->id0) id = c->maxid[k] + 1;
     return id;
@@ -179,6 +191,7 @@ static void worker(int g, void *arg)
             tprec_t *t = &c->tps[k][i];
             if (t->nreg) sim_probe(PR_REREGISTER);
             hrec_t *h = rec(c, k, t->id, H_REG, g, i + 1);
+            touch(c, k, i);
             h->inv = sim_stamp();
             (void)c->api[k].reg(t->tp);
             h->ret = sim_stamp();
@@ -189,7 +202,9 @@ static void worker(int g, void *arg)
             int cand[MAXTP], nc = 0;
             for (int i = 0; i < c->ntp[k]; i++) if (c->tps[k][i].owner == g && c->tps[k][i].registered) cand[nc++] = i;
             if (!nc) break;
-            tprec_t *t = &c->tps[k][cand[o->a % nc]];
+            int i = (o->b % 3) ? cand[nc - 1 - (int)(o->a % (nc < 3 ? nc : 3))] : cand[o->a % nc];
+            tprec_t *t = &c->tps[k][i];
+            touch(c, k, i);
             hrec_t *h = rec(c, k, t->id, H_UNREG, g, 0);
             h->inv = sim_stamp();
             c->api[k].unreg(t->tp);
@@ -305,8 +320,8 @@ static void gen(hx_plan_t *p, hx_rng_t *r)
         for (int i = 0; i < nops; i++) {
             int t = (int)hx_below(r, NT), x = (int)hx_below(r, 100);
             if (x < 30) hx_add_op(p, t, OP_RESERVE, hx_chance(r, 85) ? 0 : hx_range(r, 1, 40), 0, 0);
-            else if (x < 50) hx_add_op(p, t, OP_REGISTER, hx_below(r, 1000), hx_below(r, 1000), 0);
-            else if (x < 62) hx_add_op(p, t, OP_UNREGISTER, hx_below(r, 1000), 0, 0);
+            else if (x < 48) hx_add_op(p, t, OP_REGISTER, hx_below(r, 1000), hx_below(r, 1000), 0);
+            else if (x < 62) hx_add_op(p, t, OP_UNREGISTER, hx_below(r, 1000), hx_below(r, 1000), 0);
             else hx_add_op(p, t, OP_LOOKUP, hx_below(r, 100000), hx_below(r, 1000), 0);
         }
         if (e < nsync) hx_add_op(p, 0, OP_SYNC, hx_below(r, 4), hx_below(r, 100000), 0);
@@ -417,7 +432,7 @@ static void init(void)
 
 static const hx_harness_t H = {
     .property = "C37", .name = "c37_tpid", .opnames = opnames, .nopnames = OP_N,
-    .est_steps = 4000, .max_steps = 20000000, .fork_per_run = 1, .gen = gen, .run = run, .init = init,
+    .est_steps = 1500, .max_steps = 20000000, .gap_lo = 12, .gap_hi = 6000, .fork_per_run = 1, .gen = gen, .run = run, .init = init,
     .probe_names = probe_names, .nprobes = PR_N,
 };
 int main(int argc, char **argv) { return hx_main(argc, argv, &H); }
